@@ -78,8 +78,9 @@ func boundsRun(c *Ctx, entries []*ssa.Function, hooks *bounds.Hooks) int {
 	// aggregate obligations across engines: an instruction is discharged only if every engine
 	// (context) discharged it
 	type agg struct {
-		o   *bounds.Oblig
-		ctx int
+		o       *bounds.Oblig
+		failVia []string // entries in whose context the obligation is not discharged
+		details map[string]string
 	}
 	merged := map[string]*agg{}
 	var order []string
@@ -101,14 +102,17 @@ func boundsRun(c *Ctx, entries []*ssa.Function, hooks *bounds.Hooks) int {
 			a := merged[k]
 			if a == nil {
 				cp := *o
-				merged[k] = &agg{o: &cp}
+				cp.OK = true
+				a = &agg{o: &cp, details: map[string]string{}}
+				a.o.Contexts = 0
+				merged[k] = a
 				order = append(order, k)
-				continue
 			}
 			a.o.Contexts += o.Contexts
-			if !o.OK && a.o.OK {
-				a.o.OK = false
-				a.o.Detail = o.Detail
+			if !o.OK {
+				via := core.FuncName(uniq[i])
+				a.failVia = append(a.failVia, via)
+				a.details[via] = o.Detail
 			}
 		}
 		for f := range res.eng.Funcs() {
@@ -118,29 +122,39 @@ func boundsRun(c *Ctx, entries []*ssa.Function, hooks *bounds.Hooks) int {
 		en, fe, st := res.eng.Stats()
 		totalEn, totalFe, totalSt = totalEn+en, totalFe+fe, totalSt+st
 	}
-	var obls []*bounds.Oblig
-	for _, k := range order {
-		obls = append(obls, merged[k].o)
-	}
-	sort.SliceStable(obls, func(i, j int) bool {
-		a, b := obls[i], obls[j]
+	sort.SliceStable(order, func(i, j int) bool {
+		a, b := merged[order[i]].o, merged[order[j]].o
 		if a.Fn != b.Fn {
 			return core.FuncName(a.Fn) < core.FuncName(b.Fn)
 		}
 		return a.Pos < b.Pos
 	})
 	n := 0
-	for _, o := range obls {
-		n++
+	for _, k := range order {
+		a := merged[k]
+		o := a.o
 		text := p.TextAt(o.Pos, o.Instr.String())
 		if o.Text != "" {
 			text = o.Text + ": " + text
 		}
-		detail := ""
-		if !o.OK {
-			detail = fmt.Sprintf("%s not entailed (%d context(s)): %s", kindNames[o.Kind], o.Contexts, o.Detail)
+		fname := core.FuncName(o.Fn)
+		if len(a.failVia) == 0 {
+			n++
+			r.Add("BOUNDS."+o.Kind, fname, text, p.Position(o.Pos), true, "")
+			continue
 		}
-		r.Add("BOUNDS."+o.Kind, core.FuncName(o.Fn), text, p.Position(o.Pos), o.OK, detail)
+		// not discharged in some entry context: one obligation per such entry, so that a context in
+		// which the obligation genuinely needs a non-linear argument does not mask the others
+		sort.Strings(a.failVia)
+		for _, via := range a.failVia {
+			n++
+			t := text
+			if via != fname {
+				t += " [via " + via + "]"
+			}
+			r.Add("BOUNDS."+o.Kind, fname, t, p.Position(o.Pos), false,
+				fmt.Sprintf("%s not entailed: %s", kindNames[o.Kind], a.details[via]))
+		}
 	}
 	r.Infof("BOUNDS: %d entries, %d functions, %d obligations, %d entailment queries, %d feasibility queries, %d instruction steps, %.1fs wall (K=%d depth=%d)",
 		len(uniq), len(nfuncs), n, totalEn, totalFe, totalSt, time.Since(t0).Seconds(), cfg.K, cfg.MaxDepth)
